@@ -178,7 +178,21 @@ def rule_combined(ctx):
     ctx.ob("COMBINED-TABLE", "the combined name is not trimmed or otherwise rewritten before splitting", not others, fn=sk, detail=str(others))
 
 
-RULES = [("COMBINED-TABLE", rule_combined, 7 * 3 + 2)]
+def rule_rebuild(ctx):
+    """'feeding combined_name() back through that constructor reproduces the same namespace and name': the constructor runs
+    build() and with it the type's finish rules a second time, on a name they have already normalised -- the clause holds
+    only if those rules are idempotent (C10's IDEMP obligations for the finish rules; the checksum stage is not involved)."""
+    from . import C10
+    C10.rule_idemp(ctx, finish_only=True)
+
+
+RULES = [
+    ("COMBINED-TABLE", rule_combined, 7 * 3 + 2),
+    ("IDEMP", rule_rebuild, 2),
+    ("IDEMP-LOWER", lambda ctx: None, 3),
+    ("IDEMP-PYPI", lambda ctx: None, 4),
+    ("FRAME", lambda ctx: None, 3),
+]
 
 MANIFEST = {
     "text": "Table-level static decision over all seven variants: the split table of builder_with_combined_name (path-sensitive outcomes: split call, which half goes where, absent-separator case) and the join table of combined_name (decoded format template and argument origins) equal the documented table and agree with each other (join char = split char, direction per the property's side condition).",
